@@ -194,20 +194,25 @@ func (q *Queue) Add(elem *queue.Elem) (err error) {
 			}
 			// non-inflight message
 			if i >= q.current {
-				if i == q.current {
+				// After Init, the inflight messages (PUBLISH or PUBREL) are behind the cursor until ReadInflight has returned them.
+				if e.ID() != 0 {
+					continue
+				}
+				// the front (oldest) non-inflight message
+				if frontElem == nil {
 					frontBytes = b
 					frontElem = e
 				}
 				// drop qos0 message in the queue
 				pub := e.MessageWithID.(*queue.Publish)
 				// drop expired non-inflight message
-				if pub.ID() == 0 && queue.ElemExpiry(now, e) {
+				if queue.ElemExpiry(now, e) {
 					dropBytes = b
 					dropElem = e
 					dropErr = queue.ErrDropExpired
 					return
 				}
-				if pub.ID() == 0 && pub.QoS == packets.Qos0 && dropElem == nil {
+				if pub.QoS == packets.Qos0 && dropElem == nil {
 					dropBytes = b
 					dropElem = e
 				}
